@@ -147,12 +147,38 @@ def extract_dynamic():
             del seen[:]
             T.PatchwiseTransform(patch_size=2, transform=T.KDIdentityTransform())(x.clone())
             pw = list(seen)
-        if any(len(v) != 1 for v in out.values()) or len(pw) != 4:
-            return None
-        if pw[0] != out["patchify"][0] or pw[3] != out["unpatchify"][0]:
+        if any(len(v) != 1 for v in out.values()):
             return None
         res = {k: v[0] for k, v in out.items()}
-        res["patchwiseFlatten"], res["patchwiseUnflatten"] = pw[1], pw[2]
+        def sides(pat):
+            l, r = pat.split("->")
+            return " ".join(l.split()), " ".join(r.split())
+        if len(pw) >= 2 and pw[0] == out["patchify"][0] and pw[-1] == out["unpatchify"][0] and len(pw) <= 4:
+            mid = pw[1:-1]
+            p_out, u_in = sides(out["patchify"][0])[1], sides(out["unpatchify"][0])[0]
+            fl = [m for m in mid if sides(m)[0] == p_out]
+            un = [m for m in mid if sides(m)[1] == u_in and m not in fl]
+            if len(fl) + len(un) != len(mid) or len(fl) > 1 or len(un) > 1:
+                return None
+            # between patchify and unpatchify PatchwiseTransform flattens the patch grid, transforms patch by patch and restores the
+            # grid; a step that is done without einops (tensor.flatten / unbind / stack ...) is represented by the swap of its
+            # einops counterpart, or by the identity pattern when neither step uses einops -- the traversal itself is checked
+            # behaviourally (sub = "patchwise": an identity inner transform gives the input back)
+            if fl and un:
+                res["patchwiseFlatten"], res["patchwiseUnflatten"] = fl[0], un[0]
+            elif fl:
+                l, r = sides(fl[0])
+                res["patchwiseFlatten"], res["patchwiseUnflatten"] = fl[0], f"{r} -> {l}"
+                res["_patchwise_note"] = "unflatten step done without einops (represented by the swap of the flatten pattern)"
+            elif un:
+                l, r = sides(un[0])
+                res["patchwiseFlatten"], res["patchwiseUnflatten"] = f"{r} -> {l}", un[0]
+                res["_patchwise_note"] = "flatten step done without einops (represented by the swap of the unflatten pattern)"
+            else:
+                res["patchwiseFlatten"] = res["patchwiseUnflatten"] = f"{p_out} -> {p_out}"
+                res["_patchwise_note"] = "no einops rearrangement between patchify and unpatchify in PatchwiseTransform"
+        else:
+            return None
         return res
     except Exception:
         return None
@@ -239,6 +265,9 @@ def generate():
                 except ValueError as e:
                     d["lhs"], d["rhs"], d["error"] = [], [], str(e)
             d["source"] = "observed on a real call"
+        if dyn.get("_patchwise_note"):
+            for n in ("patchwiseFlatten", "patchwiseUnflatten"):
+                pats[n]["raw"] = pats[n]["raw"] + "   -- " + dyn["_patchwise_note"]
     text = emit(pats)
     GEN.mkdir(parents=True, exist_ok=True)
     p = GEN / "Patterns.lean"
